@@ -40,10 +40,42 @@ type c04Case struct {
 	Par        int               `json:"parallelism,omitempty"`
 	Depth      int               `json:"depth"`              // distance of the damaged file from the main file in the include graph
 	Pristine   map[string][]byte `json:"pristine,omitempty"` // the undamaged program (accepted by the fault-free compiler)
+	// Session: the damage happens between two invocations of one process: the same command first runs on the
+	// undamaged set (into another output directory), then the files are damaged, then the observed invocation runs
+	Session bool `json:"session,omitempty"`
 }
 
 func (c *c04Case) spec() *simrt.Spec {
 	cc := &cmdCase{Prog: &program{Files: c.Files, Cwd: c.Cwd, Main: c.Main}, Cfg: c.Cfg}
+	if c.Session && len(c.FSFaults) == 0 && len(c.Pristine) > 0 {
+		cc.Prog.Files = c.Pristine
+		inv := []string{"thriftgo", "-g", c.Cfg.gArg()}
+		if c.Cfg.Rec {
+			inv = append(inv, "-r")
+		}
+		cc.Prelude = [][]string{append(inv, "-o", "/prelude/o", c.Main)}
+		cc.PreludeWrite = map[string][]byte{}
+		for n, b := range c.Files {
+			if pb, ok := c.Pristine[n]; !ok || string(pb) != string(b) {
+				cc.PreludeWrite[n] = b
+			}
+		}
+		for n := range c.Pristine {
+			if _, ok := c.Files[n]; !ok {
+				cc.PreludeRemove = append(cc.PreludeRemove, n)
+			}
+		}
+		sort.Strings(cc.PreludeRemove)
+		cc.PreludeMkdir = c.Dirs
+		sp := cc.spec(c.Seed)
+		sp.Strategy = c.Strategy
+		sp.Parallelism = c.Par
+		if sp.Parallelism == 0 {
+			sp.Parallelism = 4
+		}
+		sp.StepBudget = 800000
+		return sp
+	}
 	sp := cc.spec(c.Seed)
 	sp.Dirs = c.Dirs
 	sp.FSFaults = c.FSFaults
@@ -318,6 +350,19 @@ func c04Gen(seed uint64, idx int, maxFaults int) *c04Case {
 		switch ft.Kind {
 		case "truncated":
 			ft.At = r.Intn(len(b))
+			if r.Chance(1, 3) {
+				// the cut falls inside a multi-byte character, if the file has one
+				var mid []int
+				for i, ch := range b {
+					if ch >= 0x80 && ch < 0xc0 {
+						mid = append(mid, i)
+					}
+				}
+				if len(mid) > 0 {
+					ft.At = mid[r.Intn(len(mid))]
+					ft.Note = "inside a multi-byte character"
+				}
+			}
 			files[ft.File] = append([]byte(nil), b[:ft.At]...)
 		case "flipped":
 			nb := append([]byte(nil), b...)
@@ -337,6 +382,7 @@ func c04Gen(seed uint64, idx int, maxFaults int) *c04Case {
 	}
 	c.Files = files
 	c.Pristine = m.FileMap("/work")
+	c.Session = idx%5 == 3 && len(c.FSFaults) == 0
 	if len(c.Faults) != 1 {
 		// faults do not compose: a second one can undo the first (lose the duplicated record, cut the
 		// include that leads to the damaged file, swap the damaged file out of reach); certainty about
@@ -504,6 +550,9 @@ func c04Check(a *artefacts, tier string, seed uint64, replay string) int {
 		mu.Lock()
 		defer mu.Unlock()
 		stats["cases.judged"]++
+		if c.Session {
+			stats["cases.damage-between-two-invocations-of-one-process"]++
+		}
 		stats["outcome."+v.Outcome]++
 		if c.MustReject != "" {
 			stats["cases.must-reject"]++
